@@ -18,14 +18,18 @@ theorem callOk_of_bounded (mtu : UInt16) (input : Option Bytes) (frags : List By
   | nil => simp at this
   | cons a t => simp
 
-theorem histOk_hist (disable : Bool) (st : PayState) (calls : List (UInt16 × Option Bytes)) :
-    C08.histOk false calls
-      ((payloadHist disable st (calls.map (fun (m, b) => (m, b.getD [])))).map PayObs.ofFrags) = true := by
-  induction calls generalizing st with
-  | nil => simp [payloadHist, C08.histOk]
+theorem histOk_hist (st : PayState) (flags : List Bool) (calls : List (UInt16 × Option Bytes)) :
+    C08.histOk false calls ((payloadHist st (c08Hist flags calls)).map PayObs.ofFrags) = true := by
+  induction calls generalizing st flags with
+  | nil => simp [c08Hist, payloadHist, C08.histOk]
   | cons c cs ih =>
     obtain ⟨m, b⟩ := c
-    simp only [List.map_cons, payloadHist, C08.histOk, Bool.and_eq_true]
-    exact ⟨callOk_of_bounded m b _ (payload_bounded disable m st (b.getD [])), ih _⟩
+    cases flags with
+    | nil =>
+      simp only [c08Hist, payloadHist, List.map_cons, C08.histOk, Bool.and_eq_true]
+      exact ⟨callOk_of_bounded m b _ (payload_bounded false m st (b.getD [])), ih _ _⟩
+    | cons f fs =>
+      simp only [c08Hist, payloadHist, List.map_cons, C08.histOk, Bool.and_eq_true]
+      exact ⟨callOk_of_bounded m b _ (payload_bounded f m st (b.getD [])), ih _ _⟩
 
 end Rtp.Proofs.H264
